@@ -105,7 +105,7 @@ Position::Position(std::string fen) : _zobrist_hash()
     set_enpassant_square(token == "-" ? NO_SQUARE : notationToSquare(token));
 
     stream >> _ply_counter;
-    _half_move_counter = uint8_t(_ply_counter);
+    _half_move_counter = uint16_t(_ply_counter);
     stream >> _ply_counter;
 
     _ply_counter = 2 * _ply_counter - 1 + !!(_current_side == BLACK);
@@ -442,7 +442,7 @@ MoveInfo Position::do_move(Move move)
     Castling prev_castling = _castling_rights;
     Square prev_enpassant_sq = _enpassant_square;
     bool enpassant = false;
-    uint8_t hm_counter = _half_move_counter;
+    uint16_t hm_counter = _half_move_counter;
 
     _zobrist_hash.clear_enpassant();
 
